@@ -16,22 +16,85 @@ import (
 
 // ---- WAL model ----
 
+// vWAL keeps the logged events like wal.Hydro does (whose replay logic is the
+// subject of C16): an event stays until its commit function runs; Recover
+// replays the uncommitted ones in logging order through the registered handlers.
 type vWAL struct {
 	w        *vWorld
 	open     int
 	commits  int
-	registry []string
+	handlers map[string]wal.EventHandler
+	events   []*vEvent
+	trace    string
 }
 
-func (l *vWAL) Register(h wal.EventHandler) { l.registry = append(l.registry, h.Typ()) }
-func (l *vWAL) Recover(context.Context)     {}
-func (l *vWAL) Close() error                { return nil }
-func (l *vWAL) Log(string, any) (wal.Commit, error) {
+type vEvent struct {
+	typ  string
+	item []byte
+	done bool
+}
+
+func (l *vWAL) Register(h wal.EventHandler) {
+	if l.handlers == nil {
+		l.handlers = map[string]wal.EventHandler{}
+	}
+	l.handlers[h.Typ()] = h
+}
+func (l *vWAL) Close() error { return nil }
+func (l *vWAL) Log(typ string, item any) (wal.Commit, error) {
 	if l.w.fault("wal.Log") {
 		return nil, vErrInjected
 	}
+	ev := &vEvent{typ: typ}
+	if h, ok := l.handlers[typ]; ok {
+		bs, err := h.Encode(item)
+		if err != nil {
+			return nil, err
+		}
+		ev.item = bs
+	}
+	l.events = append(l.events, ev)
 	l.open++
-	return func() error { l.open--; l.commits++; return nil }, nil
+	return func() error {
+		if l.w.frozen {
+			return vErrInjected
+		}
+		ev.done = true
+		l.open--
+		l.commits++
+		return nil
+	}, nil
+}
+
+func (l *vWAL) Recover(ctx context.Context) {
+	for _, ev := range l.events {
+		if ev.done {
+			continue
+		}
+		h, ok := l.handlers[ev.typ]
+		if !ok {
+			l.trace += ev.typ + ":nohandler;"
+			continue
+		}
+		item, err := h.Decode(ev.item)
+		if err != nil {
+			l.trace += ev.typ + ":decode-error;"
+			continue
+		}
+		need, err := h.Check(ctx, item)
+		if err != nil {
+			l.trace += ev.typ + ":check-error;"
+			continue
+		}
+		if need {
+			if err := h.Handle(ctx, item); err != nil {
+				l.trace += ev.typ + ":handle-error;"
+				continue
+			}
+		}
+		l.trace += ev.typ + ":done;"
+		ev.done = true
+	}
 }
 
 // ---- more of the world ----
@@ -67,6 +130,9 @@ func (s *vStore) CreateProcessing(_ context.Context, p *types.Processing, count 
 }
 
 func (s *vStore) DeleteProcessing(_ context.Context, p *types.Processing) error {
+	if s.w.frozen {
+		return vErrInjected
+	}
 	delete(s.w.processing, p.Nodename)
 	return nil
 }
@@ -186,3 +252,129 @@ func VerifCreateOp(arg string) {
 }
 
 func init() { vRegisterP("VerifCreateOp", VerifCreateOp) }
+
+// vRmgr.GetNodeResourceInfo with repair (used by the resource WAL handler).
+func vRepairUsage(w *vWorld, node string, workloads []*types.Workload) {
+	sum := 0
+	for _, wl := range workloads {
+		sum += vAmount(wl.Resources)
+	}
+	w.usage[node] = sum
+}
+
+// VerifCrashRecovery (C14): the core process stops at a symbolic point of a
+// deployment; a new core instance sharing the store, the resource records, the
+// engine and the log runs recovery.  arg: crash=<max crash position>,count=
+func VerifCrashRecovery(arg string) {
+	maxCrash := vParam(arg, "crash", 24)
+	maxCount := vParam(arg, "count", 2)
+	c, st := vCluster(2, 1)
+	w := &vWorld{st: st, usage: map[string]int{}, capacity: map[string]int{}, applied: map[string]int{}, running: map[string]bool{},
+		slots: map[string]int{}, processing: map[string]int{}}
+	st.w = w
+	w.repair = true
+	c.rmgr = &vRmgr{w: w}
+	lg := &vWAL{w: w}
+	c.wal = lg
+	vRegisterHandlers(lg, c, st)
+	eng := &vEngine{w: w}
+	for _, n := range []string{"a", "b"} {
+		st.nodes[n].Engine = eng
+		w.slots[n] = vInt("slots_"+n, 0, 2)
+	}
+	amount := vInt("amount", 0, 1<<30)
+	count := vInt("count", 1, maxCount)
+	w.crashMode = true
+	w.faultAt = vChoose("crash_at", maxCrash+1) // 0 = no crash
+
+	opts := &types.DeployOptions{
+		Name: "app", Podname: "p1", Image: "img", Count: count, DeployStrategy: strategy.Auto, IgnorePull: true,
+		Entrypoint: &types.Entrypoint{Name: "entry"},
+		NodeFilter: &types.NodeFilter{Podname: "p1", Includes: []string{"a", "b"}},
+		Resources:  vRes(amount),
+	}
+	if ch, err := c.CreateWorkload(context.Background(), opts); err == nil {
+		for range ch {
+		}
+	}
+	crashed := w.frozen
+	crashSite := w.site
+	vObserve("crash_site", crashSite)
+	vCover("crashed-mid-deployment", crashed)
+	// the container created in the instant before the crash that had not been logged yet
+	unlogged := ""
+	if crashed && crashSite == "wal.Log" && w.created > 0 {
+		last := fmt.Sprintf("c%d", w.created)
+		if _, rec := st.workloads[last]; !rec {
+			logged := false
+			for _, ev := range lg.events {
+				if ev.typ == eventWorkloadCreated && !ev.done {
+					if wl, err := lg.handlers[eventWorkloadCreated].Decode(ev.item); err == nil && wl.(*types.Workload).ID == last {
+						logged = true
+					}
+				}
+			}
+			if !logged {
+				unlogged = last
+			}
+		}
+	}
+
+	pendingEvents := 0
+	for _, ev := range lg.events {
+		if !ev.done {
+			pendingEvents++
+		}
+	}
+	vObserve("pending_events_at_restart", pendingEvents)
+	// ---- a new core instance: same store / resource records / engine / log ----
+	w.frozen = false
+	w.faultAt = 0
+	w.crashMode = false
+	st.held = map[string]bool{} // lock leases of the dead process have expired
+	c2 := &Calcium{store: st, rmgr: c.rmgr, wal: lg, config: c.config}
+	c2.pool = c.pool
+	lg.handlers = nil
+	vRegisterHandlers(lg, c2, st)
+	lg.Recover(context.Background())
+	vObserve("recovery_trace", lg.trace)
+	vObserve("usage_a_after", w.usage["a"])
+	vObserve("usage_b_after", w.usage["b"])
+	vObserve("recorded_after", len(st.workloads))
+	vObserve("containers_after", len(w.applied))
+
+	// every affected node's usage equals the sum of its recorded workloads
+	for _, n := range []string{"a", "b"} {
+		sum := 0
+		for _, wl := range st.workloads {
+			if wl.Nodename == n {
+				sum += vAmount(wl.Resources)
+			}
+		}
+		vAssert("C14/usage-equals-sum-of-recorded-workloads-after-recovery", w.usage[n] == sum)
+	}
+	// no in-progress marker of the interrupted deployment remains
+	vAssert("C14/no-in-progress-marker-after-recovery", len(w.processing) == 0)
+	// every instance is fully created (recorded and started) or absent from store and engine
+	for id, wl := range st.workloads {
+		_, has := w.applied[id]
+		vAssert("C14/recorded-workload-has-its-container", has)
+		vAssert("C14/recorded-workload-is-started", w.running[id])
+		_ = wl
+	}
+	for id := range w.applied {
+		_, rec := st.workloads[id]
+		vAssert("C14/no-container-without-record", rec || id == unlogged)
+	}
+	if !crashed {
+		vAssert("C14/uninterrupted-deployment-leaves-empty-log", lg.open == 0)
+	}
+}
+
+func vRegisterHandlers(lg *vWAL, c *Calcium, st *vStore) {
+	lg.Register(newCreateWorkloadHandler(c.config, c, st))
+	lg.Register(newWorkloadResourceAllocatedHandler(c.config, c, st))
+	lg.Register(newProcessingCreatedHandler(c.config, c, st))
+}
+
+func init() { vRegisterP("VerifCrashRecovery", VerifCrashRecovery) }
